@@ -19,7 +19,8 @@ func kernelsC13(thorough bool) ([]string, []layera.Kernel) {
 		maxPaths = 3
 	}
 	stub := []string{"github.com/jmattheis/goverter/method.Parse", "(*github.com/jmattheis/goverter/pkgload.PackageLoader).GetOne", "(*github.com/jmattheis/goverter/pkgload.PackageLoader).GetMatching"}
-	return []string{"xtype", "builder", "pkgload", "config", "enum", "namer"}, []layera.Kernel{
+	return []string{"xtype", "builder", "pkgload", "config", "enum", "namer", "comments"}, []layera.Kernel{
+		{Name: "K7.specgroup", Pkg: "comments", Harness: "VerifHarness_C19_Group", Unwind: 64},
 		{Name: "K9.typecode", Pkg: "xtype", Harness: "VerifHarness_C13_TypeCode", Unwind: 16},
 		{Name: "K9.recursivetypes", Pkg: "xtype", Harness: "VerifHarness_C13_RecursiveTypes", Unwind: 64, MaxDepth: 200, LoopsBounded: true},
 		{Name: "K9.enumlookup", Pkg: "xtype", Harness: "VerifHarness_C13_EnumLookup", Unwind: 16},
@@ -56,6 +57,7 @@ func runC13(opt *Options) int {
 	convs = append(convs, layerb.FamilyDefault(false)...)
 	convs = append(convs, layerb.FamilySibling(false)...)
 	convs = append(convs, layerb.FamilySignature(false)...)
+	convs = append(convs, layerb.FamilyOddities()...)
 	for i, c := range layerb.FamilyShape(false, opt.Seed) {
 		if i%4 == 0 || strings.Contains(c.ID, "shape/rec_") || strings.Contains(c.ID, "shape/generic_tree") {
 			convs = append(convs, c)
